@@ -79,7 +79,7 @@ def check_source(chk, name, lines, tier, start=2000, until=2050, scan_grid=300):
     for scope in ('extended', 'basic'):
         res, out, err = compiler.run_compiler(lines, work, scope, start, until)
         if res is None:
-            if name.startswith(('gen', 'mut')):
+            if name.startswith(('gen', 'mut')):      # (not the fixed sources: release, recorded lines, edge)
                 # "for any source the compiler accepts": a generated source the compiler refuses (loudly) is not accepted
                 chk.notes.append('generated source %s not accepted by the compiler (%s): %s' % (name, scope, err[1].strip().splitlines()[-1][:160]))
             else:
@@ -136,6 +136,7 @@ def run(tier):
     ngen = 3 if tier == 'quick' else 12
     for k in range(ngen):
         sources.append(('gen%02d' % k, compiler.gen_source(rnd, 40 if tier == 'quick' else 120)))
+    sources.append(('edge', compiler.edge_source()))
     base = compiler.lines_shipped('zonedbx')
     for k in range(1 if tier == 'quick' else 4):
         m, done = compiler.mutate_source(rnd, base, 25)
